@@ -25,6 +25,16 @@ theorem uniform_mem (s : Nat) : 0 ≤ u s ∧ u s < 1 := ⟨u_nonneg s, u_lt_one
 /-- the uniform 0 does occur: it is the first draw of `CobaRandom(482549499)` -/
 theorem zero_state_reachable : unum (normInt 482549499) = 0 := by decide
 
+/-- the LCG step is injective on states (the multiplier is odd): streams never merge, every
+state has exactly one predecessor -/
+theorem next_injective (s t : Nat) (hs : s < M) (ht : t < M) (h : next s = next t) : s = t :=
+  next_injective' s t hs ht h
+
+/-- exactly one state in [0,2^30) is followed by the uniform 0.0 — the boundary the corpus
+computes by modular inverse is THE boundary -/
+theorem zero_uniform_unique (s t : Nat) (hs : s < M) (ht : t < M) (h1 : unum s = 0) (h2 : unum t = 0) : s = t :=
+  zero_uniform_unique' s t hs ht h1 h2
+
 /-- a zero uniform is never followed by another one (the `while U == 0` loop in
 `_next_gaussian` runs at most once) -/
 theorem redraw_nonzero (s : Nat) (h : unum s = 0) : unum (next s) ≠ 0 := redraw_nonzero' s h
@@ -47,6 +57,15 @@ theorem randints_mem (s n : Nat) (a b : Int) (h : a ≤ b) :
 
 /-- shuffle returns a permutation of its input, for every state and every list -/
 theorem shuffle_perm {α} (s : Nat) (xs : List α) : (shuffle s xs).2.Perm xs := shuffle_perm' s xs
+
+/-- the loop of `CobaRandom.shuffle` as written in Python (for i = 0 … n-2: j = i + floor((n-i)·u);
+swap l[i], l[j]) — which is what the driver runs — computes exactly the recursive formulation the
+permutation and draw-count theorems are stated about -/
+theorem shuffleLoop_eq_shuffle {α} (s : Nat) (l : List α) : shuffleLoop s l = shuffle s l :=
+  shuffleLoop_eq_shuffle' s l
+
+theorem shuffleLoop_perm {α} (s : Nat) (xs : List α) : (shuffleLoop s xs).2.Perm xs := by
+  rw [shuffleLoop_eq_shuffle]; exact shuffle_perm' s xs
 
 /-- shuffle consumes exactly `len-1` uniforms (none for lists shorter than 2) -/
 theorem shuffle_draws {α} (s : Nat) (xs : List α) :
